@@ -114,17 +114,18 @@ def run(prog: Program, res: Result, tier: str) -> None:
     inst = "E/Z: the E ordering is a PlanarBond ordering unequal to the Z one"
     ok = False
     for s_ in swaps:
+        from ..core import index_perm
         for node in ast.walk(s_):
-            if isinstance(node, (ast.ListComp, ast.GeneratorExp)) and \
-                    isinstance(node.generators[0].iter, ast.Tuple):
-                try:
-                    perm = tuple(ast.literal_eval(node.generators[0].iter))
-                except Exception:
-                    continue
-                base = tuple(range(6))
-                if sorted(perm) == list(base) and perm not in set(
-                        G.G["PlanarBond"]):
-                    ok = True
+            ip = index_perm(node) if isinstance(
+                node, (ast.ListComp, ast.GeneratorExp, ast.Tuple, ast.List)) \
+                else None
+            if ip is None:
+                continue
+            perm = ip[1]
+            base = tuple(range(6))
+            if sorted(perm) == list(base) and perm not in set(
+                    G.G["PlanarBond"]):
+                ok = True
     zmap = [n for n in ast.walk(fi.node) if isinstance(n, ast.Dict)
             and any("STEREOZ" in norm(k) for k in n.keys)]
     zm = {norm(k).split(".")[-1]: norm(v) for d in zmap
